@@ -14,6 +14,9 @@ Naming (checked against the code): `DH.edges.dimembers(e) = (tail, head) = (_edg
 out = edges whose TAIL holds n.  `add_node_to_edge(e, n, "in")` adds to the tail, `"out"` to the head.
 """
 import copy
+import os
+import signal
+import threading
 import warnings
 
 import xgi
@@ -41,6 +44,16 @@ EDGE_UNIVERSES = [
 ATTR_KEYS = ["w", "color", "label", "weight", "m"]
 ATTR_VALS = [0, 1, 2, "r", "g", None, [1, 2], {"k": [1]}]
 DIRECTIONS = ["in", "out"]
+# documented defaults of the keyword parameters (docstrings of xgi/core/dihypergraph.py).  A generated call leaves
+# some of them out (op["omit"] names them; the op then carries the documented default as the value, which is what
+# the model is asked to perform): a default that drifts from the documentation is a wrong effect of the plain call.
+DEFAULTS = {
+    "remove_node": {"strong": False, "remove_empty": True},
+    "remove_nodes_from": {"strong": False, "remove_empty": True},
+    "remove_node_from_edge": {"remove_empty": True},
+    "clear": {"remove_net_attr": True},
+    "cleanup": {"isolates": False, "relabel": True, "in_place": True},
+}
 
 
 class Gen:
@@ -134,6 +147,19 @@ class Gen:
         return "sideways" if self.rng.random() < 0.03 else self.rng.choice(DIRECTIONS)
 
     def op(self):
+        op = self._op()
+        d = DEFAULTS.get(op["op"])
+        if d and self.rng.random() < 0.35:
+            omit = [k for k in d if self.rng.random() < 0.6]
+            for k in omit:
+                op[k] = d[k]
+            if omit:
+                op["omit"] = omit
+        if op["op"] == "cleanup" and not op["in_place"]:
+            self.is_frozen = False
+        return op
+
+    def _op(self):
         w = dict(self.OPS)
         w.update(self.weights)
         if self.is_frozen and not self.frozen_links:
@@ -153,11 +179,12 @@ class Gen:
             return {"op": name, "ns": [enc_id(self.node()) for _ in range(r.randint(0, 3))], "strong": b(), "remove_empty": b(0.6)}
         if name == "add_edge":
             idx = "$auto" if b(0.5) else enc_id(self.eid())
-            return {"op": name, "members": self.members(), "idx": idx, "attr": enc_attrs_req(self.attrs())}
+            return {"op": name, "members": self.members(), "idx": idx, "attr": enc_attrs_req(self.attrs()),
+                    "container": r.choice(["iter", "iter-tail", "iter-head"]) if b(0.1) else None}
         if name == "add_edges_from":
             fmt = r.choice([1, 1, 2, 3, 4, 5])
             return {"op": name, "fmt": fmt, "items": self.edge_items(fmt, 0, 4), "attr": enc_attrs_req(self.attrs(0.3)),
-                    "container": "iter" if b(0.12) else None}
+                    "container": r.choice(["iter", "iter-tail", "iter-head"]) if b(0.15) else None}
         if name == "add_node_to_edge":
             return {"op": name, "e": enc_id(self.eid()), "n": enc_id(self.node()), "direction": self.direction()}
         if name == "remove_edge":
@@ -178,10 +205,7 @@ class Gen:
             self.is_frozen = False
             return {"op": name}
         if name == "cleanup":
-            op = {"op": name, "isolates": b(), "relabel": b(), "in_place": b(0.7)}
-            if not op["in_place"]:
-                self.is_frozen = False
-            return op
+            return {"op": name, "isolates": b(), "relabel": b(), "in_place": b(0.7)}
         if name == "relabel":
             return {"op": name, "label_attribute": r.choice(["label", "old"])}
         if name == "freeze":
@@ -262,19 +286,20 @@ def _members(m):
     return [t, h] if m.get("as") == "list" else (t, h)
 
 
-def _iter_members(ms):
-    """tail and head handed over as one-shot iterators (the library may look at them only once)"""
+def _iter_members(ms, which="iter"):
+    """tail and / or head handed over as one-shot iterators (the library may look at them only once);
+    which = "iter" (both sides), "iter-tail", "iter-head" (one side an iterator, the other a list)"""
     if isinstance(ms, (list, tuple)) and len(ms) == 2 and isinstance(ms[0], list) and isinstance(ms[1], list):
-        return type(ms)((iter(ms[0]), iter(ms[1])))
+        return type(ms)((iter(ms[0]) if which != "iter-head" else ms[0], iter(ms[1]) if which != "iter-tail" else ms[1]))
     return ms
 
 
 def _ebunch(fmt, items, container=None):
-    if container == "iter":
+    if container in ("iter", "iter-tail", "iter-head"):
         out = []
         d = {}
         for it in items:
-            ms = _iter_members(_members(it["members"]))
+            ms = _iter_members(_members(it["members"]), container)
             if fmt == 5:
                 d[dec_id(it["idx"])] = ms
             elif fmt == 1:
@@ -338,6 +363,11 @@ def _attr_call(f, op):
     return f(3)
 
 
+def _kw(op, *names):
+    """the keyword arguments of the call: those named in op["omit"] are left to the library's defaults"""
+    return {k: op[k] for k in names if k not in op.get("omit", ())}
+
+
 def call(box, op):
     """perform the public call described by `op` on the real network"""
     H = box.H
@@ -347,15 +377,18 @@ def call(box, op):
     if name == "add_nodes_from":
         return H.add_nodes_from(_node_items(op["items"]), **_attrs(op["attr"]))
     if name == "remove_node":
-        return H.remove_node(dec_id(op["n"]), strong=op["strong"], remove_empty=op["remove_empty"])
+        return H.remove_node(dec_id(op["n"]), **_kw(op, "strong", "remove_empty"))
     if name == "remove_nodes_from":
-        return H.remove_nodes_from([dec_id(n) for n in op["ns"]], strong=op["strong"], remove_empty=op["remove_empty"])
+        return H.remove_nodes_from([dec_id(n) for n in op["ns"]], **_kw(op, "strong", "remove_empty"))
     if name == "add_edge":
         kw = {} if op["idx"] == "$auto" else {"idx": dec_id(op["idx"])}
         if op["idx"] is None:
             kw = {"idx": None}
             op["idx"] = "$auto"                                # idx=None *is* the automatic id
-        return H.add_edge(_members(op["members"]), **kw, **_attrs(op["attr"]))
+        ms = _members(op["members"])
+        if op.get("container"):
+            ms = _iter_members(ms, op["container"])
+        return H.add_edge(ms, **kw, **_attrs(op["attr"]))
     if name == "add_edges_from":
         return H.add_edges_from(_ebunch(op["fmt"], op["items"], op.get("container")), **_attrs(op["attr"]))
     if name == "add_node_to_edge":
@@ -365,7 +398,7 @@ def call(box, op):
     if name == "remove_edges_from":
         return H.remove_edges_from([dec_id(e) for e in op["es"]])
     if name == "remove_node_from_edge":
-        return H.remove_node_from_edge(dec_id(op["e"]), dec_id(op["n"]), op["direction"], remove_empty=op["remove_empty"])
+        return H.remove_node_from_edge(dec_id(op["e"]), dec_id(op["n"]), op["direction"], **_kw(op, "remove_empty"))
     if name == "set_node_attributes":
         return _attr_call(H.set_node_attributes, op)
     if name == "set_edge_attributes":
@@ -374,12 +407,12 @@ def call(box, op):
         H[op["k"]] = _val(op["v"])
         return
     if name == "clear":
-        return H.clear(remove_net_attr=op["remove_net_attr"])
+        return H.clear(**_kw(op, "remove_net_attr"))
     if name == "copy":
         box.H = H.copy()
         return
     if name == "cleanup":
-        box.H = H.cleanup(isolates=op["isolates"], relabel=op["relabel"], in_place=op["in_place"])
+        box.H = H.cleanup(**_kw(op, "isolates", "relabel", "in_place"))
         return
     if name == "relabel":
         return xgi.convert_labels_to_integers(H, label_attribute=op["label_attribute"], in_place=True)
@@ -395,9 +428,55 @@ def call(box, op):
     raise AssertionError(name)
 
 
+# ----------------------------------------------------------------------------- watchdog
+# A public call that does not return (a loop that never ends after a wrong edit of the library) must end the history
+# with an outcome the predicates can report, not hang the check: every call runs under an interval timer.  Ordinary
+# calls take milliseconds.  After the first timeout of a process the limit shrinks (shrinking a failing history re-runs
+# the hanging call many times), and the total time spent waiting for calls that never return is bounded by a budget:
+# once it is used up, calls of the kinds that have hung are not executed any more but end at once with a CallTimeout
+# marked `presumed`, which the predicates do not report (a presumed hang is no witness) — the run has its concrete
+# witnesses by then and the remaining histories simply end there.
+CALL_TIMEOUT_S = [float(os.environ.get("VERIF_CALL_TIMEOUT", "10"))]
+HANG = {"budget": float(os.environ.get("VERIF_HANG_BUDGET", "45")), "kinds": set()}
+
+
+class CallTimeout(Exception):
+    """a public call did not return within the time limit"""
+    presumed = False
+
+
+def guarded(callf):
+    """`callf(net, op)` under the watchdog (main thread only; elsewhere the call runs unguarded)"""
+    def run(net, op):
+        if threading.current_thread() is not threading.main_thread():
+            return callf(net, op)
+        kind = op.get("op")
+        if HANG["budget"] <= 0 and kind in HANG["kinds"]:
+            e = CallTimeout(f"{kind}: not executed (calls of this kind did not return before; the time budget for hanging calls is used up)")
+            e.presumed = True
+            raise e
+        limit = CALL_TIMEOUT_S[0]
+
+        def on_alarm(signum, frame):
+            CALL_TIMEOUT_S[0] = min(CALL_TIMEOUT_S[0], 0.3)
+            HANG["budget"] -= limit
+            HANG["kinds"].add(kind)
+            raise CallTimeout(f"{kind} did not return within {limit:g} s")
+        old = signal.signal(signal.SIGALRM, on_alarm)
+        signal.setitimer(signal.ITIMER_REAL, limit)
+        try:
+            return callf(net, op)
+        finally:
+            signal.setitimer(signal.ITIMER_REAL, 0)
+            signal.signal(signal.SIGALRM, old)
+    return run
+
+
 def outcome_of(exc, warned):
     if exc is None:
         return "warned" if warned else "ok"
+    if isinstance(exc, CallTimeout):
+        return "err:hang"
     if isinstance(exc, (XGIError, IDNotFound)):
         return "err:lib"
     if isinstance(exc, TypeError):
@@ -412,21 +491,37 @@ def apply_impl(box, op, callf=call):
         warnings.simplefilter("always")
         exc = None
         try:
-            callf(box, op)
+            if getattr(box, "hung", None) is not None:
+                raise box.hung            # the network of a call that never returned is garbage: the history ends there
+            guarded(callf)(box, op)
         except Exception as e:  # noqa
             exc = e
-    return outcome_of(exc, any(issubclass(x.category, UserWarning) for x in w)), exc
+            if isinstance(e, CallTimeout):
+                box.hung = e
+        finally:
+            warned = any(issubclass(x.category, UserWarning) for x in w)
+            del w[:]                      # (a call that warns in an endless loop leaves a long list)
+    return outcome_of(exc, warned), exc
+
+
+def safe_id(x):
+    """enc_id, or the marker "$bad:<type>" for an object that is no ID of the model's domain (what a wrong edit of the
+    library may store as a node or edge: an iterator, a list, …) — the snapshot must stay readable, the predicate reports it"""
+    try:
+        return enc_id(x)
+    except (ValueError, TypeError):
+        return "$bad:" + type(x).__name__
 
 
 def sids(it):
-    return sorted((enc_id(x) for x in it), key=idkey)
+    return sorted((safe_id(x) for x in it), key=idkey)
 
 
 def _stat(view, name, ids):
     """[[id, value]] of a stat in view order, "$err:…" when the stat cannot be computed"""
     try:
         d = getattr(view, name).asdict()
-        return [[enc_id(i), d[i]] for i in ids]
+        return [[safe_id(i), d[i]] for i in ids]
     except Exception as ex:  # noqa
         return "$err:" + type(ex).__name__
 
@@ -436,8 +531,12 @@ def snapshot(box, out="ok"):
     `DH.edges.dimembers(e)` cross-read with `tail(e)`/`head(e)`, `DH.nodes.dimemberships(n)`, `DH.nodes[n]`,
     `DH.edges[e]`, in/out/total degree and tail/head/total size stats); private key sets and counter when present"""
     H = box.H
+    if getattr(box, "hung", None) is not None:
+        # after a call that never returned the object may hold millions of entries: observe an empty network instead
+        # (the predicate reports `call-does-not-return` from the outcome alone)
+        H = xgi.DiHypergraph()
     nodes, edges = list(H.nodes), list(H.edges)
-    s = {"out": out, "nodes": [enc_id(n) for n in nodes], "edges": [enc_id(e) for e in edges]}
+    s = {"out": out, "nodes": [safe_id(n) for n in nodes], "edges": [safe_id(e) for e in edges]}
     tail, head, mi, mo, nattr, eattr = [], [], [], [], [], []
     for e in edges:
         try:
@@ -447,22 +546,22 @@ def snapshot(box, out="ok"):
                 t = h = "$err:dimembers-differs-from-tail-head"
         except Exception as ex:  # noqa
             t = h = "$err:" + type(ex).__name__
-        tail.append([enc_id(e), t]); head.append([enc_id(e), h])
+        tail.append([safe_id(e), t]); head.append([safe_id(e), h])
         try:
-            eattr.append([enc_id(e), enc_attrs(H.edges[e])])
+            eattr.append([safe_id(e), enc_attrs(H.edges[e])])
         except Exception:  # noqa
-            eattr.append([enc_id(e), "$missing"])
+            eattr.append([safe_id(e), "$missing"])
     for n in nodes:
         try:
             i, o = H.nodes.dimemberships(n)
             i, o = sids(i), sids(o)
         except Exception as ex:  # noqa
             i = o = "$err:" + type(ex).__name__
-        mi.append([enc_id(n), i]); mo.append([enc_id(n), o])
+        mi.append([safe_id(n), i]); mo.append([safe_id(n), o])
         try:
-            nattr.append([enc_id(n), enc_attrs(H.nodes[n])])
+            nattr.append([safe_id(n), enc_attrs(H.nodes[n])])
         except Exception:  # noqa
-            nattr.append([enc_id(n), "$missing"])
+            nattr.append([safe_id(n), "$missing"])
     s.update(tail=tail, head=head, membIn=mi, membOut=mo, nattr=nattr, eattr=eattr)
     s["indeg"] = _stat(H.nodes, "in_degree", nodes)
     s["outdeg"] = _stat(H.nodes, "out_degree", nodes)
@@ -483,7 +582,7 @@ def snapshot(box, out="ok"):
 
 
 def to_request(op):
-    r = copy.deepcopy({k: v for k, v in op.items() if k != "container"})
+    r = copy.deepcopy({k: v for k, v in op.items() if k not in ("container", "omit")})
     if isinstance(r.get("members"), dict):
         r["members"].pop("as", None)
     for it in r.get("items", []) or []:
@@ -500,6 +599,7 @@ def nontrivial(snap, kinds):
 
 
 NAME = "DiHypergraph"
+CORPUS = "DHG"   # shared corpus directory corpus/DHG/*.json: run first by every check that drives this state machine
 
 
 def factory():
